@@ -14,6 +14,10 @@ def run(ctx):
                    "commitments of that pair; commit is preprocess(1).")
     ctx.undecided = "non-zero / distinctness consequences (probabilistic) and the quality of the random source."
     ctx.floor = 9
+    rules(ctx)
+
+
+def rules(ctx):
     P = ctx.prog
     f = ctx.anchor(R1 + "Nonce::<C>::new")
     if f:
